@@ -9,6 +9,8 @@ elements, a seed for the values).  `evaluate`
      it; calls exactly those loaders directly (the "equivalent direct library calls": data, parameters, or the
      exception class) and, for `filter`, applies the library filter directly to every field — these values are the
      abstract description sent to the driver (value = float64 bit pattern, NaN canonical).  Python never chooses a loader.
+  2b. calls `pewlib.__main__.load(path)` itself for every input and compares the image it returns (or that it fails) with
+     the driver's `loadMech` / `loadSpec` of that path,
   3. runs the command line (in process or as a subprocess) and observes the files it wrote or changed, loaded back
      with `io.npz.load` / `io.textimage.load` / the .vti reader of harness/c16.py; in-process runs also record, through
      thin delegating wrappers around the six library loaders, which loader delivered each input,
@@ -623,6 +625,9 @@ class C20(Prop):
                    "counted as undetermined: the property does not say what happens (pewlib: IsADirectoryError, nothing written)",
                    "exit statuses are compared as ok / error only; whether a failing load ends as a usage error (status 2) or a traceback "
                    "is in the model and reported as the feature exit-code-as-modelled / exit-code-differs (the property text does not name exit codes)",
+                   "`__main__.load(path)` is also called directly for every input (when the module has a function of that name) and its "
+                   "image - elements, every value, stored configuration - or its failure compared with the model's and the specification's load of "
+                   "the path; the exception class (ValueError or not) is a feature (load-exception-as-modelled)",
                    "which loader delivered an input is compared by loader (agilent, perkinelmer, csv, npz, thermo, textimage) where the in-process "
                    "wrappers saw a call for that path; the Agilent collection-method list is a feature (agilent-methods-as-modelled), its effect is "
                    "compared through the data (batches whose methods disagree)",
@@ -1121,6 +1126,40 @@ class C20(Prop):
         if any((root / f["path"][len(ROOT) + 1:]).is_dir() for f in spec_["files"]):
             undetermined = True
             feats.add("output-collides-with-directory")
+        # ---- 2b. `__main__.load(path)` itself, called directly for every existing input (both run modes): the image it returns
+        # (elements, every value, stored configuration) or that it fails, against the driver's `loadMech` / `loadSpec` of the path
+        import pewlib.__main__ as cli_mod
+
+        def load_side(x):
+            if "fail" in x:
+                return "fail"
+            return {k: x[k] for k in ("elements", "shape", "data", "config")}
+        if hasattr(cli_mod, "load"):
+            direct, kinds = [], []
+            for rel, src in zip(run_rels, sources):
+                if not src["exists"]:
+                    direct.append(None)
+                    kinds.append(None)
+                    continue
+                try:
+                    with np.errstate(all="ignore"):
+                        laser = cli_mod.load(root / rel)
+                    names = list(laser.data.dtype.names)
+                    direct.append({"elements": names, "shape": list(laser.data.shape), "data": [grid_tokens(laser.data[n]) for n in names],
+                                   "config": cfg_tokens(laser.config)})
+                    kinds.append(None)
+                except Exception as e:  # noqa: BLE001
+                    direct.append("fail")
+                    kinds.append("usage" if isinstance(e, ValueError) else "crash")
+            mask = [d is not None for d in direct]
+            load_legs = (direct, [load_side(x) if m else None for x, m in zip(rep["model_loads"], mask)],
+                         [load_side(x) if m else None for x, m in zip(rep["spec_loads"], mask)])
+            for k_, x in zip(kinds, rep["spec_loads"]):
+                if k_ is not None and "fail" in x:
+                    feats.add("load-exception-" + ("as-modelled" if k_ == x["fail"] else f"differs:{k_}-for-{x['fail']}"))
+            feats.add("load-called-directly")
+        else:  # a rewrite without a function `load`: this leg is not observable
+            load_legs = (None, None, None)
         # ---- 3. run and observe the files written (and, in process, the loader that delivered each input)
         before = snapshot(root)
         argv = self.argv_of(case, root, run_rels, out_rel)
@@ -1143,6 +1182,7 @@ class C20(Prop):
         # the model is asked only about inputs whose loading was observed (a run that fails earlier never reaches the others)
         model["loaders"] = [None if d is None else lname(x) for d, x in zip(seen_by, rep["model_loaders"])]
         spec_["loaders"] = [None if d is None else lname(x) for d, x in zip(seen_by, rep["spec_loaders"])]
+        impl["load"], model["load"], spec_["load"] = load_legs
         # ---- features
         for d, x, src in zip(seen_by, rep["spec_loaders"], sources):
             if not src["exists"]:
@@ -1220,7 +1260,9 @@ class C20(Prop):
                 yield {**case, "inputs": ins[:i] + ins[i + 1:]}
         for i, s in enumerate(ins):
             for key in ("h", "w"):
-                lo = 2 if (key == "w" and s["fmt"] in ("agilent", "thermo", "csvdir")) else 1
+                lo = 2 if (key == "w" and s["fmt"] in ("agilent", "thermo", "csvdir")) or (key == "h" and s["fmt"] == "perkin") else 1
+                if s["fmt"] == "emptydir":
+                    continue
                 for step in (256, 64, 16, 4):  # long sides of the `large` filter class
                     if s[key] - step >= max(lo, 8):
                         yield {**case, "inputs": ins[:i] + [{**s, key: s[key] - step}] + ins[i + 1:]}
